@@ -82,6 +82,7 @@ func (r *RoutingTable) verifyRoutingTable(id uint64, table map[uint64]*route) er
 func (r *RoutingTable) updateRoutingCommandHandler(conn redcon.Conn, cmd redcon.Command) {
 	// The command handlers of the routing table service should wait for the cluster join event.
 	<-r.joined
+	verifhook.Point(r.this.Name, "rt.before-update")
 
 	r.updateRoutingMtx.Lock()
 	defer r.updateRoutingMtx.Unlock()
